@@ -85,6 +85,10 @@ class BasicConverter:
         if not data:
             return ([], {})
         loaded: dict[str, Any] = json.loads(data)
+        for name, default in {**self.args, **self.kwargs}.items():
+            if default is inspect.Parameter.empty and name not in loaded:
+                # calling the function with the `empty` marker as the value would be wrong
+                raise ValueError(f"Argument '{name}' is missing and has no default value.")
         args = [loaded.pop(name, self.args[name]) for name in self.args]
         kwargs = {name: loaded.pop(name, self.kwargs[name]) for name in self.kwargs}
         if self.all_kwargs:
